@@ -227,7 +227,14 @@ func (ex *Exec) loadFacts(st *State, t *Term, l leaf) {
 			for i := len(path) - 1; i >= 0; i-- {
 				inner = TS.mk(&Term{op: "select", args: []*Term{inner, path[i]}, sort: selSort(inner.sort)})
 			}
-			t.AddFact(IntOp("<", birth(inner), n))
+			// content that was in the component when it was created (havoc'd) is older than
+			// that moment -- for objects that existed then; what a component "holds" at a
+			// reference allocated later is unconstrained until it is stored to
+			if len(path) > 0 && path[len(path)-1].sort == SRef {
+				t.AddFact(Implies(IntOp("<", birth(path[len(path)-1]), n), IntOp("<", birth(inner), n)))
+			} else {
+				t.AddFact(IntOp("<", birth(inner), n))
+			}
 		}
 		t.AddFact(IntOp("<", birth(t), st.now))
 	}
